@@ -136,6 +136,16 @@ func (r *NetconfResponse) Record(b []byte) {
 	case v1Dot1:
 		r.record1dot1()
 	}
+
+	if r.Failed == nil && util.ByteContainsAny([]byte(r.Result), r.FailedWhenContains) {
+		// an rpc-error tag that was split across chunk boundaries is only visible once the
+		// chunks have been joined
+		r.Failed = &OperationError{
+			Input:       string(r.Input),
+			Output:      r.Result,
+			ErrorString: string(getNetconfPatterns().rpcErrors.Find([]byte(r.Result))),
+		}
+	}
 }
 
 func (r *NetconfResponse) record1dot0() {
@@ -172,6 +182,8 @@ func (r *NetconfResponse) record1dot1Chunks() error {
 
 	var cursor int
 
+	var terminated bool
+
 	for cursor < len(d) {
 		if d[cursor] == byte('\n') {
 			// we don't need this at the start of this loop, but this lets us easily handle newlines
@@ -189,13 +201,20 @@ func (r *NetconfResponse) record1dot1Chunks() error {
 
 		cursor++
 
+		if cursor >= len(d) {
+			break
+		}
+
 		if d[cursor] == byte('#') {
+			terminated = true
+
 			break
 		}
 
 		var chunkSizeStr string
 
-		for chunkSizeLen := 0; chunkSizeLen <= maxChunkSizeCharLen; chunkSizeLen++ {
+		for chunkSizeLen := 0; chunkSizeLen <= maxChunkSizeCharLen &&
+			cursor+chunkSizeLen < len(d); chunkSizeLen++ {
 			if d[cursor+chunkSizeLen] == byte('\n') {
 				chunkSizeStr = string(d[cursor : cursor+chunkSizeLen])
 
@@ -222,12 +241,27 @@ func (r *NetconfResponse) record1dot1Chunks() error {
 			)
 		}
 
+		if chunkSize <= 0 || chunkSize > len(d)-cursor {
+			return errNetconf1Dot1ParseError(
+				fmt.Sprintf(
+					"unable to parse netconf response: chunk size '%d' does not fit remaining data",
+					chunkSize,
+				),
+			)
+		}
+
 		joined = append(joined, d[cursor:cursor+chunkSize]...)
 
 		// obviously no reason to iterate over the chunk we just yoinked out, so increment the
 		// cursor accordingly -- we can ignore newlines after the chunk since we handle that at
 		// the top of this loop
 		cursor += chunkSize
+	}
+
+	if !terminated {
+		return errNetconf1Dot1ParseError(
+			"unable to parse netconf response: end of chunks marker missing",
+		)
 	}
 
 	joined = bytes.TrimPrefix(joined, []byte(xmlHeader))
